@@ -83,6 +83,7 @@ struct Net {                         // flat per-link queues of integers (decima
 	std::vector<Tamper> tampers;
 	std::vector<std::vector<long> > count;
 	std::vector<bool> cut;           // cut[i]: party i is silent (everything it sends is dropped)
+	std::vector<long> *sent_total = NULL, *cut_after = NULL;   // shared over both nets: party i crashes after cut_after[i] sends
 	Net(size_t n_in): n(n_in), q(n_in, std::vector<std::deque<std::string> >(n_in)), count(n_in, std::vector<long>(n_in, 0)), cut(n_in, false) {}
 };
 
@@ -96,6 +97,7 @@ class Aio : public aiounicast {
 			(void)timeout;
 			long idx = net->count[j][i_in]++;
 			if (net->cut[j]) return true;
+			if (net->cut_after && (*net->cut_after)[j] >= 0) { if ((*net->sent_total)[j] >= (*net->cut_after)[j]) return true; (*net->sent_total)[j]++; }
 			char *c = mpz_get_str(NULL, 10, m); std::string v(c); free(c);
 			for (size_t k = 0; k < net->tampers.size(); k++) {
 				Net::Tamper &t = net->tampers[k];
